@@ -90,4 +90,20 @@ def Placement.matches (ctx : Ctx) (pl : Placement) (c : ChooseLeaf) : Prop :=
   ∀ a ∈ pl.allocs, a.2.1 = c.start ∧ 0 < a.2.2 ∧ a.1 ∈ c.parts ∧ a.1 ∈ ctx.avail ∧
     ∃ p, ctx.find a.1 = some p ∧ a.2.2 ≤ p.qty
 
+mutual
+/-- `P path name children` holds at every `Max` node of the tree (`path` = position of the node). -/
+def forallMax (P : Path → String → List Expr → Prop) : Path → Expr → Prop
+  | _, .choose .. => True
+  | _, .alloc .. => True
+  | path, .obj _ cs => forallMaxL P path 0 cs
+  | path, .min _ cs => forallMaxL P path 0 cs
+  | path, .max name cs => P path name cs
+  | path, .lt _ a b => forallMax P (0 :: path) a ∧ forallMax P (1 :: path) b
+  | path, .scale _ _ _ c => forallMax P (0 :: path) c
+def forallMaxL (P : Path → String → List Expr → Prop) : Path → Nat → List Expr → Prop
+  | _, _, [] => True
+  | path, i, e :: es => forallMax P (i :: path) e ∧ forallMaxL P path (i + 1) es
+end
+
+
 end ErdosVerif.Strl
